@@ -33,7 +33,7 @@ ASSUMPTIONS = [
 NSHARDS = {'quick': 16, 'thorough': 16}
 FAIL_KINDS = ['raise', 'multi_raise', 'compound_raise', 'called', 'called_long', 'gotwant', 'gotwant_eval',
               'gotwant_multi', 'gotwant_second', 'none', 'try_finally', 'try_except_other', 'comprehension',
-              'with_raise', 'nested_try', 'lambda_call', 'while_else', 'compile_return', 'compile_nonlocal', 'bad_repr', 'bad_repr_multi']
+              'with_raise', 'nested_try', 'lambda_call', 'while_else', 'compile_return', 'compile_nonlocal', 'bad_repr', 'bad_repr_multi', 'bad_repr_output']
 PREFIXES = ['', '', 'r', 'R', 'u', 'U']
 
 
@@ -106,6 +106,10 @@ def gen_doctest(rng, uid, fail_kind):
     elif fail_kind == 'bad_repr_multi':
         L += ['>>> class BR:', '...     def __repr__(self):', '...         raise RuntimeError("norepr")', '>>> br0 = 1',
               '>>> br1 = 2', '>>> BR()  # %s' % fm, 'something']
+    elif fail_kind == 'bad_repr_output':
+        # ... and the statement printed text that is not the want either (finding F46)
+        L += ['>>> class BR:', '...     def __repr__(self):', '...         raise RuntimeError("norepr")', '>>> br0 = 1',
+              '>>> br1 = 2', '>>> (print("printed"), BR())[1]  # %s' % fm, 'something']
     elif fail_kind == 'compile_return':
         # rejected only when the part is compiled: the failing line is the line the SyntaxError names
         L += ['>>> pre_ok = 1', '>>> return 5  # %s' % fm]
